@@ -1436,9 +1436,7 @@ func opcodeLShift(op *ParsedOpcode, t *thread) error {
 	if err != nil {
 		return err
 	}
-	n := num.Int()
-
-	if n < 0 {
+	if num.LessThanInt(0) {
 		return errs.NewError(errs.ErrNumberTooSmall, "n less than 0")
 	}
 
@@ -1447,13 +1445,19 @@ func opcodeLShift(op *ParsedOpcode, t *thread) error {
 		return err
 	}
 
-	l := len(x)
-	for i := 0; i < l-1; i++ {
-		x[i] = x[i]<<n | x[i+1]>>(8-n)
+	// The operand is a big-endian bit string. The result is written to a new
+	// slice as the operand may be shared with other stack items.
+	n := shiftCount(num, x)
+	byteShift, bitShift := n/8, uint(n%8)
+	res := make([]byte, len(x))
+	for i := 0; i+byteShift < len(x); i++ {
+		res[i] = x[i+byteShift] << bitShift
+		if i+byteShift+1 < len(x) {
+			res[i] |= x[i+byteShift+1] >> (8 - bitShift)
+		}
 	}
-	x[l-1] <<= n
 
-	t.dstack.PushByteArray(x)
+	t.dstack.PushByteArray(res)
 	return nil
 }
 
@@ -1462,9 +1466,7 @@ func opcodeRShift(op *ParsedOpcode, t *thread) error {
 	if err != nil {
 		return err
 	}
-	n := num.Int()
-
-	if n < 0 {
+	if num.LessThanInt(0) {
 		return errs.NewError(errs.ErrNumberTooSmall, "n less than 0")
 	}
 
@@ -1473,14 +1475,30 @@ func opcodeRShift(op *ParsedOpcode, t *thread) error {
 		return err
 	}
 
-	l := len(x)
-	for i := l - 1; i > 0; i-- {
-		x[i] = x[i]>>n | x[i-1]<<(8-n)
+	// The operand is a big-endian bit string. The result is written to a new
+	// slice as the operand may be shared with other stack items.
+	n := shiftCount(num, x)
+	byteShift, bitShift := n/8, uint(n%8)
+	res := make([]byte, len(x))
+	for i := len(x) - 1; i-byteShift >= 0; i-- {
+		res[i] = x[i-byteShift] >> bitShift
+		if i-byteShift-1 >= 0 {
+			res[i] |= x[i-byteShift-1] << (8 - bitShift)
+		}
 	}
-	x[0] >>= n
 
-	t.dstack.PushByteArray(x)
+	t.dstack.PushByteArray(res)
 	return nil
+}
+
+// shiftCount returns the non-negative shift count num as an int, limited to the
+// number of bits in x, at which point every bit has been shifted out.
+func shiftCount(num *scriptNumber, x []byte) int {
+	bits := 8 * len(x)
+	if num.LessThanInt(int64(bits)) {
+		return num.Int()
+	}
+	return bits
 }
 
 // opcodeBoolAnd treats the top two items on the data stack as integers.  When
